@@ -194,7 +194,7 @@ def build_library(specs, scope, scoped, base_index):
 
 
 def run_cmd(cmd, cwd):
-    p = subprocess.run(cmd, cwd=cwd, capture_output=True, text=True)
+    p = subprocess.run(cmd, cwd=cwd, capture_output=True, text=True, errors="replace")
     return p.returncode, p.stdout, p.stderr
 
 
